@@ -1293,6 +1293,10 @@ def oracle_regressions(ctx):
         ("refused", "stack-shapes", lambda: xp.stack([arr([2], [2]), arr([3], [3])]), None),
         ("refused", "qr-short-row", lambda: list(xp.linalg.qr(arr([6, 4], [2, 4], "float64"))), None),
         ("refused", "qr-short-row", lambda: list(xp.linalg.qr(arr([2, 4], [2, 4], "float64"))), None),
+        # only the ragged LAST row chunk is shorter than the column count (nominal chunk size is fine)
+        ("refused", "qr-short-last-row-chunk", lambda: list(xp.linalg.qr(arr([10, 4], [4, 4], "float64"))), None),
+        ("refused", "qr-short-last-row-chunk", lambda: list(xp.linalg.qr(arr([9, 4], [4, 4], "float64"))), None),
+        ("refused", "qr-short-last-row-chunk", lambda: list(xp.linalg.svd(arr([4, 10], [4, 4], "float64"), full_matrices=False)), None),
         # fix cfb5bf3 (repeat)
         ("done", "repeat-zero", lambda: xp.repeat(arr([4], [2]), 0), np.repeat(np.arange(4), 0)),
         ("done", "repeat-zero", lambda: xp.repeat(arr([5, 5], [5, 4]), 0, axis=-2), np.repeat(np.arange(25).reshape(5, 5), 0, axis=-2)),
